@@ -393,3 +393,33 @@ def dtype_casts(t: Term) -> List[Tuple[str, Term]]:
 
 def narrowing_casts(t: Term) -> List[str]:
     return [f"{show(x)[:70]} ({nm.split('.')[-1]})" for nm, x in dtype_casts(t) if nm in NARROW_FLOATS]
+
+
+def cell_scalar_kind(t: Term, snap: Term) -> Tuple[Optional[str], str]:
+    """Classify a scalar built from one snapshot's cell data (`hmatrix`, `boxlength`) by evaluating the extracted term on three
+    concrete cells (orthogonal, tilted 2-D, tilted 3-D with tilts of both signs; `boxlength` = the diagonal, as the readers set it):
+    'V' (cell volume / area = det H = prod boxlength), 'Lmin' (smallest box length), or 'V?' / 'Lmin?' when the term equals that
+    quantity for the orthogonal cell only - i.e. it is wrong for triclinic cells; the second value describes the differing cell."""
+    import numpy as np
+    from ..concrete import ev as cev
+    if not any(x[0] == "attr" and x[1] == snap and x[2] in ("hmatrix", "boxlength") for x in walk(t)):
+        return None, ""
+    cells = [np.diag([3.0, 4.0, 5.0]), np.array([[3.0, 0.0], [1.4, 4.0]]), np.array([[3.0, 0, 0], [-1.3, 4.0, 0], [0.9, -1.7, 5.0]])]
+    vals = []
+    try:
+        for H in cells:
+            v = cev(t, {("attr", snap, "hmatrix"): H, ("attr", snap, "boxlength"): np.diag(H).copy()})
+            vals.append(float(v))
+    except Exception:  # noqa
+        return None, ""
+    vol = [abs(float(np.linalg.det(H))) for H in cells]
+    lmin = [float(np.diag(H).min()) for H in cells]
+    for name, ref in (("V", vol), ("Lmin", lmin)):
+        close = [abs(a - b) < 1e-9 * max(1.0, abs(b)) for a, b in zip(vals, ref)]
+        if all(close):
+            return name, ""
+        if close[0] and not all(close[1:]):
+            k = 1 if not close[1] else 2
+            return name + "?", (f"cell H = {cells[k].tolist()} (box lengths {np.diag(cells[k]).tolist()}): the term evaluates to {vals[k]:.6f}, "
+                                f"{'the cell volume det(H)' if name == 'V' else 'the smallest box length'} is {ref[k]:.6f}")
+    return None, ""
